@@ -2,7 +2,7 @@
 // ring of 1/2/4/64 slots, optionally one more vCPU that joins through join_current_vcpu_into_workpool()), lets 1..K submitters
 // (photon threads on the harness's vCPUs and plain OS threads, PhotonContext / StdContext / AutoContext) hand over a seeded
 // random program of call() and async_call() with task bodies that return at once, yield, sleep, spin, and destroys the pool
-// right after the last hand-over returned (by the submitter that finished last - a photon thread or an OS thread - or by the
+// (--prim threadx etc.: always with the joined vCPU next to one owned vCPU and long sleeps) right after the last hand-over returned (by the submitter that finished last - a photon thread or an OS thread - or by the
 // main thread), i.e. while tasks are still queued or running.  Events (one global lock, vt.h), judged by spec/Trace_WorkPoolA.tla:
 //   Reset{prim,ex,mode,nv,ext,ring,nsub,ntask,by}   PoolCtorInv  PoolCtorResp{n}   ExtJoinInv  ExtJoinResp{r}
 //   CallInv{s,id,ctx,os}  CallResp{s,id}   AsyncInv{s,id,os}  AsyncResp{s,id}
@@ -16,6 +16,7 @@
 using namespace photon;
 
 static int g_vcpus = 3, g_threads = 4, g_ops = 5, g_execs = 50, g_mode = -1, g_poolv = 3;
+static bool g_extheavy = false;      // --prim threadx / inlinex / pooledx: always an externally joined vCPU next to ONE owned vCPU, long sleeps
 static uint64_t g_seed = 1;
 static vtp::Vcpus g_vc;
 
@@ -50,7 +51,7 @@ static Body random_body(vt::Rng& r) {
     for (int i = 0; i < n; i++) {
         int k = (int)r.below(10);
         if (k < 4) b.steps[b.n++] = 1 + (int)r.below(3);
-        else if (k < 8) b.steps[b.n++] = 10 + (int)r.below(k < 7 ? 400 : 2500);
+        else if (k < 8) { int c2 = (int)r.below(10); b.steps[b.n++] = c2 < 6 ? 10 + (int)r.below(400) : c2 < 9 ? 400 + (int)r.below(2500) : 3000 + (int)r.below(4000); }
         else b.steps[b.n++] = -(int)(1 + r.below(3000));
     }
     return b;
@@ -160,7 +161,9 @@ static bool exec_pool(int ex, vt::Rng& r) {
     g_vid.reset();
     Exec x;
     int nv = 1 + (int)r.below(g_poolv);
-    int ext = r.coin(15) ? 1 : 0;
+    int ext = r.coin(30) ? 1 : 0;                              // one more vCPU joins through join_current_vcpu_into_workpool()
+    if (ext && r.coin(60)) nv = 1;                             // ... and then often does a large share of the work
+    if (g_extheavy) { ext = 1; nv = 1; }
     static const int rings[] = {2, 2, 4, 4, 64, 1, 3};
     int ring = rings[r.below(7)];
     int nsub = 1 + (int)r.below(g_threads);
@@ -175,6 +178,7 @@ static bool exec_pool(int ex, vt::Rng& r) {
         bool burst = r.coin(40);                               // a burst of async_call()s larger than a small ring
         for (int k = 0; k < nops && next_id <= 36; k++) {
             Op op; op.id = next_id++; op.b = random_body(r);
+            if (g_extheavy && r.coin(50) && op.b.n < 4) op.b.steps[op.b.n++] = 2000 + (int)r.below(4000);
             op.is_call = burst ? (k == nops - 1 && r.coin(50)) : r.coin(50);
             op.ctx = s->os ? (r.coin(50) ? 1 : 2) : (r.coin(10) ? 1 : (r.coin(50) ? 0 : 2));
             op.argform = r.coin(30);
@@ -183,7 +187,7 @@ static bool exec_pool(int ex, vt::Rng& r) {
         }
     }
     int ntask = next_id - 1;
-    vt::Ev("Reset").s("prim", g_mode < 0 ? "inline" : g_mode == 0 ? "thread" : "pooled").i("ex", ex).i("mode", g_mode).i("nv", nv)
+    vt::Ev("Reset").s("prim", std::string(g_mode < 0 ? "inline" : g_mode == 0 ? "thread" : "pooled") + (g_extheavy ? "x" : "")).i("ex", ex).i("mode", g_mode).i("nv", nv)
         .i("ext", ext).i("ring", ring).i("nsub", nsub).i("ntask", ntask).i("by", x.dtor_by);
     vt::Ev("PoolCtorInv");
     x.pool = new WorkPool(nv, INIT_EVENT_EPOLL, INIT_IO_NONE, g_mode, ring);
@@ -249,6 +253,7 @@ int main(int argc, char** argv) {
     g_threads = atoi(vt::arg(argc, argv, "--threads", "4"));
     g_ops = atoi(vt::arg(argc, argv, "--ops", "5"));
     g_poolv = atoi(vt::arg(argc, argv, "--poolvcpus", "3"));
+    if (prim.size() > 1 && prim.back() == 'x') { g_extheavy = true; prim.pop_back(); }
     g_mode = prim == "inline" ? -1 : prim == "thread" ? 0 : prim == "pooled" ? 4 : atoi(prim.c_str());
     vt::open(vt::arg(argc, argv, "--out", "-"));
     set_log_output_level(ALOG_ERROR + 1);
@@ -256,7 +261,7 @@ int main(int argc, char** argv) {
     vtp::t0() = photon::__update_now();
     g_vc.start(g_vcpus);
     vtp::Watchdog wd; wd.start(25, prim.c_str());
-    vt::Rng r(g_seed * 1000003 + (uint64_t)(g_mode + 7) * 131);
+    vt::Rng r(g_seed * 1000003 + (uint64_t)(g_mode + 7) * 131 + (g_extheavy ? 17 : 0));
     int rc = 0;
     for (int ex = 0; ex < g_execs; ex++)
         if (!exec_pool(ex, r)) { rc = 4; break; }
